@@ -89,6 +89,10 @@ POS_TEMPLATES = ["log({v})", "np.sqrt({v})", "log10({v})", "{{1/{v}}}"]
 
 
 def num_factor(rng: random.Random, v: str, nums) -> dict:
+    if rng.random() < 0.12:  # a multi-column numeric factor with known columns: raw powers
+        k = rng.choice([2, 3])
+        text = f"poly({v}, {k}, raw=True)"
+        return {"text": text, "label": pynorm(text), "kind": "multi", "fields": [str(i) for i in range(k)], "base": v}  # raw powers come back as an unnamed 2-D array: fields 0..k-1
     w = rng.choice([u for u in nums if u != v] or [v])
     tpl = rng.choice(POS_TEMPLATES + NUM_TEMPLATES[:4] if v == "p" else NUM_TEMPLATES)
     text = tpl.format(v=v, w=w)
@@ -183,7 +187,12 @@ def full_product_names(term: dict, factors: dict) -> list[str]:
     opts = []
     for f in term["factors"]:
         fa = factors[f]
-        opts.append([f"{fa['label']}[{lv}]" for lv in fa["levels"]] if fa["kind"] == "cat" else [fa["label"]])
+        if fa["kind"] == "cat":
+            opts.append([f"{fa['label']}[{lv}]" for lv in fa["levels"]])
+        elif fa["kind"] == "multi":
+            opts.append([f"{fa['label']}[{k}]" for k in fa["fields"]])
+        else:
+            opts.append([fa["label"]])
     return [":".join(reversed(p)) for p in itertools.product(*reversed(opts))]
 
 
